@@ -97,8 +97,12 @@ def run_case(ctx, case):
             for i, kind in enumerate(store.KINDS + ['sym']):
                 o = store.register(srv, kind, 'alice', rng, masks=rng.choice((rig.ALL_MASKS, [])),
                                    names=['n%d-%d' % (i, j) for j in range(rng.randrange(0, 4))],
-                                   groups=['g%d-%d' % (i, j) for j in range(rng.randrange(0, 3))],
-                                   asi=[('ns%d-%d' % (i, j), 'd%d' % j) for j in range(rng.randrange(0, 3))],
+                                   # some group / ASI values are shared between objects on purpose: an attribute
+                                   # operation on one object must not reach another object holding an equal value
+                                   groups=list(dict.fromkeys([rng.choice(('shared-g1', 'shared-g2', 'g%d-%d' % (i, j)))
+                                                              for j in range(rng.randrange(0, 4))])),
+                                   asi=list(dict.fromkeys([rng.choice((('shared-ns', 'shared-data'), ('ns%d-%d' % (i, j), 'd%d' % j)))
+                                                           for j in range(rng.randrange(0, 3))])),
                                    state=rng.choice(('pre', 'active')))
                 if o:
                     objs.append(o)
